@@ -47,31 +47,62 @@ func c14R1(c *Ctx, r *Report) {
 		}
 	})
 	r.Check("C14-R1", "fn=storeAttachments stored-body=digested-bytes", c.Pos(dig[0].Pos()), okBody, "the bytes stored are the bytes digested", "the bytes stored under the key are not the bytes the digest was computed from")
-	// meta: "digest" -> digV, "length"/"encoded_length" -> len(data)
-	okDigest, okLen := false, false
-	EachInstr(fn, false, func(in ssa.Instruction) {
-		mu, ok := in.(*ssa.MapUpdate)
-		if !ok {
-			return
-		}
-		k, ok := constString(unwrap(mu.Key))
-		if !ok {
-			return
-		}
-		v := unwrap(mu.Value)
-		switch k {
-		case "digest":
-			if v == digV {
-				okDigest = true
+	// meta: "digest" -> digV, "length"/"encoded_length" -> len(data); built in storeAttachments itself or in a helper that is
+	// handed the stored bytes and their digest
+	metaOK := func(host *ssa.Function, dataV, digestV ssa.Value) (okD, okL bool) {
+		EachInstr(host, false, func(in ssa.Instruction) {
+			mu, ok := in.(*ssa.MapUpdate)
+			if !ok {
+				return
 			}
-		case "length", "encoded_length":
-			if call, ok := v.(*ssa.Call); ok {
-				if b, ok := call.Call.Value.(*ssa.Builtin); ok && b.Name() == "len" && call.Call.Args[0] == data {
-					okLen = true
+			k, ok := constString(unwrap(mu.Key))
+			if !ok {
+				return
+			}
+			v := unwrap(mu.Value)
+			switch k {
+			case "digest":
+				if v == digestV {
+					okD = true
+				}
+			case "length", "encoded_length":
+				if call, ok := v.(*ssa.Call); ok {
+					if b, ok := call.Call.Value.(*ssa.Builtin); ok && b.Name() == "len" && call.Call.Args[0] == dataV {
+						okL = true
+					}
 				}
 			}
-		}
-	})
+		})
+		return
+	}
+	okDigest, okLen := metaOK(fn, data, digV)
+	if !okDigest && !okLen {
+		EachInstr(fn, false, func(in ssa.Instruction) {
+			call, ok := in.(*ssa.Call)
+			if !ok {
+				return
+			}
+			cal := call.Call.StaticCallee()
+			if cal == nil || cal.Parent() != nil || !c.InScope(cal) || len(cal.Blocks) == 0 {
+				return
+			}
+			di, gi := -1, -1
+			for i, a := range call.Call.Args {
+				if a == data {
+					di = i
+				}
+				if a == digV {
+					gi = i
+				}
+			}
+			if di < 0 || gi < 0 || di >= len(cal.Params) || gi >= len(cal.Params) {
+				return
+			}
+			if d, l := metaOK(cal, cal.Params[di], cal.Params[gi]); d && l {
+				okDigest, okLen = true, true
+			}
+		})
+	}
 	r.Check("C14-R1", "fn=storeAttachments meta digest=digest-of-stored-bytes length=len(stored-bytes)", c.Pos(fn.Pos()), okDigest && okLen, "advertised digest and length describe the stored bytes", fmt.Sprintf("advertised metadata does not describe the stored bytes (digest ok=%v, length ok=%v)", okDigest, okLen))
 }
 
